@@ -10,7 +10,7 @@ from vlib import gbool, glist
 from checks import execframe_common as X
 
 PID = "C08"
-DFLAGS = ["promoted_dispatch", "evm_wipes_revisions", "checkproof_nil_err", "nil_validator", "nil_to", "nil_from"]
+DFLAGS = ["promoted_dispatch", "evm_wipes_revisions", "checkproof_nil_err", "nil_validator", "nil_to", "nil_from", "code_revert_reenters"]
 
 STUB_EFFECT = {"Add": "SeRawWrite", "AddObject": "SeRawWrite", "Callee": "SeReadOnly", "Caller": "SeReadOnly", "CrossInvoke": "SeCross",
                "CrossInvokeEVM": "SeEvm", "CurrentCaller": "SeReadOnly", "Delete": "SeJournaledWrite", "EnableAudit": "SeReadOnly",
@@ -25,7 +25,7 @@ KIND = {"string": "KStr", "[]uint8": "KBytes", "uint64": "KU64", "int32": "KI32"
 
 def gdcfg(flags):
     return ("{| d_promoted_dispatch := %s; d_evm_wipes_revisions := %s; d_checkproof_nil_err := %s; d_nil_validator := %s; "
-            "d_evm_interchain_norecover := false; d_nil_to := %s; d_nil_from := %s |}") % tuple(gbool(f in flags) for f in DFLAGS)
+            "d_evm_interchain_norecover := false; d_nil_to := %s; d_nil_from := %s; d_code_revert_reenters := %s |}") % tuple(gbool(f in flags) for f in DFLAGS)
 
 
 def get_surface(exe):
@@ -130,6 +130,25 @@ def payload_ops(r, frm, poor):
     return ops
 
 
+ZERO = "x:0x0000000000000000000000000000000000000000"
+
+
+def xvm_deploy(frm, fee_ok, module=None, tag="xvm_deploy"):
+    """XVM (wasm) deployment: TransactionData{INVOKE, XVM, Payload = module} to the zero address"""
+    good = module is None
+    return dict(tx={"t": "td", "from": frm, "to": ZERO, "type": 1, "vmtype": 1, "hex": X.WASM_FIRSTBYTE if good else module},
+                dtx=dtx("PfNotIbtp", True, "(BXvmDeploy %s)" % gbool(good), fee_ok), tag=tag + ("" if fee_ok else "_poor") + ("" if good else "_bad"))
+
+
+def xvm_ops(r, frm, poor):
+    fee = not poor
+    ops = [xvm_deploy(frm, fee), xvm_deploy(frm, fee, module="00112233"), xvm_deploy(frm, fee, module="")]
+    # invocation of an address without code / with junk input (the deployed address depends on the sender's nonce: not predicted)
+    ops.append(dict(tx={"t": "td", "from": frm, "to": "u:7", "type": 1, "vmtype": 1, "hex": "0a0161"}, dtx=dtx("PfNotIbtp", True, "(BXvm None)", fee), tag="xvm_invoke_nocode"))
+    ops.append(dict(tx={"t": "td", "from": frm, "to": "c:store", "type": 1, "vmtype": 1, "hex": ""}, dtx=dtx("PfNotIbtp", True, "(BXvm None)", fee), tag="xvm_invoke_nocode"))
+    return ops
+
+
 def ibtp_ops(r, frm, poor):
     """IBTP transactions: field mutations with an accepting rule, and proof defects"""
     fee = not poor
@@ -192,6 +211,17 @@ def corpus(surface):
                        dtx=dtx("PfValidatorNil", True, "(BIbtp BUnknown)", True), tag="nil_validator")]))
     out.append(h([dict(tx={"t": "transfer", "from": "u:0", "to": "u:2", "amt": "5", "mut": {"nil_to": 1}}, dtx=dtx("PfNotIbtp", True, "BNilTo", True), tag="nil_to")]))
     out.append(h([dict(tx={"t": "transfer", "from": "u:0", "to": "u:2", "amt": "5", "mut": {"nil_from": 1}}, dtx=dtx("PfNotIbtp", True, "BNilFrom", True), tag="nil_from")]))
+    # XVM deployment that succeeds but cannot pay its fee (the revert undoes a code write), at several positions
+    fill = lambda i: dict(tx={"t": "bvm", "from": "u:0", "to": "c:store", "m": "Set", "args": [["s", "k%d" % i], ["s", "v1"]]},
+                          dtx=dtx("PfNotIbtp", True, "(BBvm (BcCall {| ms_params := [KStr; KStr]; ms_variadic := false; ms_response := true; ms_promoted := None |} [AStr; AStr] BOk false))", True), tag="store_set")
+    out.append(h([xvm_deploy("u:1", False)], gas=1, deadline_ms=6000))
+    out.append(h([fill(0), xvm_deploy("u:1", False), fill(1)], gas=1, deadline_ms=6000))
+    out.append(h([fill(0), fill(1), xvm_deploy("u:1", False)], gas=1, deadline_ms=6000))
+    out.append(h([xvm_deploy("u:0", True), xvm_deploy("u:1", False, module="00112233")], gas=1, deadline_ms=6000))
+    # deployment by a funded account, then invocations of the deployed rule module
+    out.append(h([xvm_deploy("u:0", True),
+                  dict(tx={"t": "td", "from": "u:0", "to": "w:u:0/0", "type": 1, "vmtype": 1, "hex": "0a0c73746172745f766572696679"},
+                       dtx=dtx("PfNotIbtp", True, "(BXvm None)", True), tag="xvm_invoke")], gas=0))
     # a rejected proof in every position of a block whose length is not a multiple of the group size, parallel grouping
     for pos in range(7):
         ops = []
@@ -230,7 +260,7 @@ def gen_histories(r, surface, quick):
         gas = r.choice([0, 1])
         poor = gas == 1 and r.random() < 0.4
         frm = "u:1" if poor else "u:0"
-        ops = payload_ops(r, frm, poor) + ibtp_ops(r, frm, poor)
+        ops = payload_ops(r, frm, poor) + ibtp_ops(r, frm, poor) + xvm_ops(r, frm, poor)
         r.shuffle(ops)
         out.append(dict(cfg=dict(admins=4, gas=gas, audit=r.random() < 0.3, bal="1000000000000000", proof=r.choice(["", "parallel"])), pre=SEED,
                         blocks=[ops[j:j + 7] for j in range(0, len(ops), 7)], blk_kw={}))
